@@ -1,5 +1,7 @@
 import TcVerif.Driver.Hist
 import TcVerif.Driver.Judge
+import TcVerif.Driver.Rep
+import TcVerif.Driver.JudgeRep
 
 open Tc.Driver
 
@@ -15,6 +17,19 @@ partial def loopHist (h : IO.FS.Stream) (out : IO.FS.Stream) (st : HState) : IO 
       out.putStrLn o
     loopHist h out st'
 
+partial def loopRep (h : IO.FS.Stream) (out : IO.FS.Stream) (st : PState) : IO Unit := do
+  let line ← h.getLine
+  if line.isEmpty then return ()
+  if line.startsWith "#" then
+    out.putStrLn line.trimAscii.toString
+    loopRep h out (if line.startsWith "# case" then {} else st)
+  else
+    out.putStrLn ("> " ++ line.trimAscii.toString)
+    let (st', outs) := repLine st line
+    for o in outs do
+      out.putStrLn o
+    loopRep h out st'
+
 partial def loopJudge (h : IO.FS.Stream) (out : IO.FS.Stream) (c : JCase) : IO Unit := do
   let line ← h.getLine
   if line.isEmpty then
@@ -24,12 +39,23 @@ partial def loopJudge (h : IO.FS.Stream) (out : IO.FS.Stream) (c : JCase) : IO U
   for o in outs do out.putStrLn o
   loopJudge h out c'
 
+partial def loopJudgeRep (h : IO.FS.Stream) (out : IO.FS.Stream) (j : RJ) : IO Unit := do
+  let line ← h.getLine
+  if line.isEmpty then
+    for o in rjFlush j do out.putStrLn o
+    return ()
+  let (j', outs) := rjLine j (line.dropEndWhile (· == '\n')).toString
+  for o in outs do out.putStrLn o
+  loopJudgeRep h out j'
+
 def main (args : List String) : IO UInt32 := do
   let stdin ← IO.getStdin
   let stdout ← IO.getStdout
   match args with
   | ["model", "hist"] => loopHist stdin stdout {}; return 0
   | ["judge", "hist"] => loopJudge stdin stdout {}; return 0
+  | ["model", "rep"] => loopRep stdin stdout {}; return 0
+  | ["judge", "rep"] => loopJudgeRep stdin stdout {}; return 0
   | _ =>
     IO.eprintln "usage: tcmodel model <family> < ops.txt"
     return 2
